@@ -627,14 +627,14 @@ def run_theorems(res: Result, invariants: list[str], netmode: str = "all2"):
             res.violations.append(f"{r['log']}#model:{inv}")
 
 
-def run_pure(res: Result, tasks: list[dict], invariants: list[str], label: str, nontrivial_event):
+def run_pure(res: Result, tasks: list[dict], invariants: list[str], label: str, nontrivial_event, with_raised: bool = True):
     import pure
     wd = os.path.join(sdcheck.WORK, res.pid, "pure_" + label)
     shutil.rmtree(wd, ignore_errors=True)
     os.makedirs(wd)
     tf = os.path.join(wd, "traces.ndjson")
     pure.record_many(tasks, tf)
-    out = tlc.validate_traces(tf, "PureTrace", invariants + ["Inv_RAISED", "Inv_UNKNOWN"], wd)
+    out = tlc.validate_traces(tf, "PureTrace", invariants + (["Inv_RAISED"] if with_raised else []) + ["Inv_UNKNOWN"], wd)
     traces = {}
     for ln in open(tf):
         tr = json.loads(ln)
@@ -923,12 +923,18 @@ def c13(res: Result):
                        "public operations on sparse/modular 3-6 variable networks (the class on which the pre-fix livelock occurred) run under a "
                        "watchdog; every main-loop iteration of symbolic_attractor_test is logged by the guarded hook and TLC checks each consecutive "
                        "pair is a legal, progressing step of the modelled loop and that the executed loop back-edges of each call stay below a "
-                       "bound in state-space size, diagram size and simulation budget. Non-trivial: distinct histories with at least one "
+                       "bound in state-space size, diagram size and simulation budget; (4) the functions outside the diagram (solver front ends, Petri-net "
+                       "translation / restriction, percolation, LDOI, drivers, name sanitization) return under the watchdog. Non-trivial: distinct histories with at least one "
                        "attractor-test call of >= 2 iterations.")
 
     def nt(tr):
         return any(len(L["its"]) >= 2 for e in tr["events"] for L in e["loops"])
     execute_and_validate(res, tasks, invs, "live", nt)
+    # the functions outside the diagram (solver front ends, Petri-net translation and restriction, percolation, LDOI / drivers, name
+    # sanitization incl. names that clash repeatedly) under the recorder's watchdog
+    ptasks = pure_tasks(rng, q, ["trappist", "reduced", "pn", "restrict", "percnet", "perc", "strict", "conflicts", "ldoi", "drivers", "sanitize"],
+                        4 if q else 12, [3, 3, 4], N(q, 120, 1200), exhaustive2=False, prefix="h")
+    run_pure(res, ptasks, ["Inv_HANG"], "pure", lambda e: True, with_raised=False)
 
 
 # ------------------------------------------------------------------------------------------------
